@@ -52,9 +52,22 @@ func c31Case(r *rand.Rand, fname string, mode string) (block string, e c31Expect
 		outCmd = "tout json '" + stdout + "'"
 	}
 	stderr := ""
+	stderrKind := "none"
 	exit := 0
 	var body []string
-	switch r.Intn(4) {
+	switch r.Intn(6) {
+	case 4, 5: // structured stderr (a JSON array or map) written through a redirection: exit 0
+		// a command carrying <err> declares the generic type on the block's stdout when the
+		// block is compiled, so stdout is plain text of type * in these cases
+		// (and any earlier command in the body fixes the type of the shared stderr stream),
+		// so the function consists of that one command and nothing is asserted about stdout
+		kind, stdout, stdoutType, outCmd, arrLen = "empty", "", "*", "", 0
+		if r.Intn(2) == 0 {
+			stderr, stderrKind = `["e0","e1","e2"]`, "array"
+		} else {
+			stderr, stderrKind = `{"ek":1,"el":2}`, "map"
+		}
+		body = []string{"tout <err> json '" + stderr + "'"}
 	case 0: // stderr then stdout: exit 0
 		stderr = c31Word(r) + "\n"
 		body = []string{"err '" + strings.TrimSuffix(stderr, "\n") + "'", outCmd}
@@ -71,14 +84,18 @@ func c31Case(r *rand.Rand, fname string, mode string) (block string, e c31Expect
 	js := func(s string) string { b, _ := json.Marshal(s); return string(b) }
 	var cands []cand
 	cands = append(cands, cand{"ExitNum", fmt.Sprintf("\"ExitNum\": %d", exit), fmt.Sprintf("\"ExitNum\": %d", 1-exit+r.Intn(2)*2)})
-	cands = append(cands, cand{"StdoutMatch", "\"StdoutMatch\": " + js(stdout), "\"StdoutMatch\": " + js(stdout+"x")})
+	if kind != "empty" {
+		cands = append(cands, cand{"StdoutMatch", "\"StdoutMatch\": " + js(stdout), "\"StdoutMatch\": " + js(stdout+"x")})
+	}
 	rxHold, rxFail := "^.+", "^never-matches-[0-9]{9}$"
 	if kind == "text" {
 		rxHold = "^" + strings.NewReplacer(".", "\\.", "!", "!").Replace(strings.TrimSuffix(stdout, "\n")) + "\\n$"
 	}
-	cands = append(cands, cand{"StdoutRegex", "\"StdoutRegex\": " + js(rxHold), "\"StdoutRegex\": " + js(rxFail)})
-	wrongType := map[string]string{"str": "json", "json": "str"}[stdoutType]
-	cands = append(cands, cand{"StdoutType", "\"StdoutType\": " + js(stdoutType), "\"StdoutType\": " + js(wrongType)})
+	wrongType := map[string]string{"str": "json", "json": "str", "*": "json"}[stdoutType]
+	if kind != "empty" {
+		cands = append(cands, cand{"StdoutRegex", "\"StdoutRegex\": " + js(rxHold), "\"StdoutRegex\": " + js(rxFail)})
+		cands = append(cands, cand{"StdoutType", "\"StdoutType\": " + js(stdoutType), "\"StdoutType\": " + js(wrongType)})
+	}
 	switch kind {
 	case "array":
 		cands = append(cands, cand{"StdoutIsArray", "\"StdoutIsArray\": true", ""})
@@ -97,9 +114,25 @@ func c31Case(r *rand.Rand, fname string, mode string) (block string, e c31Expect
 			}
 		}
 	}
+	switch stderrKind {
+	case "array":
+		cands = append(cands, cand{"StderrIsArray", "\"StderrIsArray\": true", ""})
+		cands = append(cands, cand{"StderrIsMap", "", "\"StderrIsMap\": true"})
+	case "map":
+		cands = append(cands, cand{"StderrIsMap", "\"StderrIsMap\": true", ""})
+		cands = append(cands, cand{"StderrIsArray", "", "\"StderrIsArray\": true"})
+	}
+	if stderr != "" && stderrKind == "none" && kind != "text" {
+		// plain text on stderr is neither an array nor a map, whatever stdout's type is
+		cands = append(cands, cand{"StderrIsMap", "", "\"StderrIsMap\": true"})
+	}
 	if stderr != "" {
 		cands = append(cands, cand{"StderrMatch", "\"StderrMatch\": " + js(stderr), "\"StderrMatch\": " + js(stderr+"z")})
-		cands = append(cands, cand{"StderrRegex", "\"StderrRegex\": " + js("^[a-zA-Z0-9]"), "\"StderrRegex\": " + js("^never-[0-9]{7}$")})
+		rx := "^[a-zA-Z0-9]"
+		if stderrKind != "none" {
+			rx = "^[\\[{]"
+		}
+		cands = append(cands, cand{"StderrRegex", "\"StderrRegex\": " + js(rx), "\"StderrRegex\": " + js("^never-[0-9]{7}$")})
 	} else {
 		cands = append(cands, cand{"StderrRegex", "\"StderrRegex\": \"^$\"", "\"StderrRegex\": \"^something$\""})
 		cands = append(cands, cand{"StderrMatch", "", "\"StderrMatch\": \"unexpected\""})
@@ -143,7 +176,7 @@ func c31Case(r *rand.Rand, fname string, mode string) (block string, e c31Expect
 				continue
 			}
 		}
-		if strings.HasPrefix(c.name, "Stderr") {
+		if c.name == "StderrMatch" || c.name == "StderrRegex" {
 			stderrAsserted = true
 		}
 		frags = append(frags, frag)
@@ -166,7 +199,7 @@ func init() {
 	register(&Property{
 		ID:    "C31",
 		Level: "exploration",
-		Rule: "generated functions with fixed stdout (text, JSON array or JSON map), optional stderr and exit number 0/1, paired with plans combining ExitNum, StdoutMatch, StdoutRegex, StdoutType, StdoutIsArray, StdoutIsMap, StdoutGreaterThan, StderrMatch, StderrRegex, each assertion chosen to hold or to fail: every single-assertion-failing plan, all-holding plans, and PRNG mixes; defined with `test unit function` and executed with `test run`; " +
+		Rule: "generated functions with fixed stdout (text, JSON array or JSON map), optional stderr and exit number 0/1, paired with plans combining ExitNum, StdoutMatch, StdoutRegex, StdoutType, StdoutIsArray, StdoutIsMap, StdoutGreaterThan, StderrMatch, StderrRegex, StderrIsArray, StderrIsMap (stderr written as text or as a JSON array / map through a redirection), each assertion chosen to hold or to fail: every single-assertion-failing plan, all-holding plans, and PRNG mixes; defined with `test unit function` and executed with `test run`; " +
 			"oracle: passed (exit number 0 of `test run`) iff every assertion of the plan holds; non-trivial = the plan has >= 2 assertions; distinct by (function body, plan)",
 		Assumptions: []string{"an absent ExitNum means 0 and an absent StderrMatch means `stderr must be empty` unless StderrRegex is given (relied on by the repo's behavioural plans); every function that writes to stderr carries an explicit stderr assertion", "StdoutGreaterThan N is only used with lengths strictly above or strictly below N (the code accepts length == N)", "tested functions do not use `return` (a `return` inside a unit-tested function terminates the block that called `test run`: recorded as an observation in DESIGN.md)"},
 		Run: func(x *Ctx) {
@@ -180,7 +213,7 @@ func init() {
 				exp, _ := json.Marshal(e)
 				cases = append(cases, &proto.Case{ID: fmt.Sprintf("c31-%d", id), Op: "prog", Block: block, Expect: exp, TimeoutMs: 30000})
 			}
-			modes := []string{"none", "ExitNum", "StdoutMatch", "StdoutRegex", "StdoutType", "StdoutIsArray", "StdoutIsMap", "StdoutGreaterThan", "StderrMatch", "StderrRegex"}
+			modes := []string{"none", "ExitNum", "StdoutMatch", "StdoutRegex", "StdoutType", "StdoutIsArray", "StdoutIsMap", "StdoutGreaterThan", "StderrMatch", "StderrRegex", "StderrIsArray", "StderrIsMap"}
 			for rep := 0; rep < x.Pick(12, 200); rep++ {
 				for mi, m := range modes {
 					add(x.Rng("single-"+m, rep*100+mi), m)
